@@ -270,8 +270,13 @@ def _check_forms(acc, kind, mk_op, mk_tensor, ham, Xop, N, ref_from_op, prop):
     ref_from_op(Top) -> site-basis reference 4-index tensor (independent formula)
     prop: dict(ta, H (matrix or None), L, method, nref, nt_cmp)"""
     from quantarhei.qm import ReducedDensityMatrixPropagator, ReducedDensityMatrix
+    # every instance is built BEFORE any context is entered, from bit-identical inputs: a
+    # Hamiltonian that has been through a context comes back with rounding-level changes, and
+    # a tensor constructed outside eigenbasis_of(H) ("direct" route) is expressed in the
+    # eigenvector gauge numpy.linalg.eigh happens to return for exactly those numbers
     Top = mk_op()
     Tt = mk_tensor()
+    fresh = {B1: mk_op() for B1 in BASES}
     if not Top.as_operators or Tt.as_operators:
         raise isolation.HarnessError("forms not as requested")
     Tref = ref_from_op(Top)
@@ -314,7 +319,7 @@ def _check_forms(acc, kind, mk_op, mk_tensor, ham, Xop, N, ref_from_op, prop):
     # ---- conversion in each basis, comparison in each basis --------------------
     conv = {}
     for B1 in BASES:
-        Tc = mk_op()
+        Tc = fresh[B1]
         with _basis(B1, ham, Xop):
             Tc.convert_2_tensor()
         if Tc.as_operators:
@@ -500,6 +505,7 @@ def eval_td(case):
     TDo = S.tensor(True, True, cutoff)
     TIt = S.tensor(False, False, cutoff)
     TIo = S.tensor(False, True, cutoff)
+    fresh = {B1: S.tensor(True, True, cutoff) for B1 in BASES}    # see _check_forms
     tscale = max(float(numpy.max(numpy.abs(_arr(TIt.data)))), 1.0e-300)
 
     # ---- (c) exact limits -----------------------------------------------------
@@ -541,7 +547,7 @@ def eval_td(case):
     # ---- conversion of the operator form in each basis ---------------------------
     conv = {}
     for B1 in BASES:
-        Tc = S.tensor(True, True, cutoff)
+        Tc = fresh[B1]
         with _basis(B1, ham, Xop):
             Tc.convert_2_tensor()
         conv[B1] = Tc
@@ -720,6 +726,8 @@ def redfield_cases(tier):
                                 and c["lam_tau"][0] == 20.0 and c["T"] == 300.0
                                 and c["ftype"] == "OverdampedBrownian"):
             return False                   # 4 sites: the most general pattern only
+        if c["n"] == 3 and c["lam_tau"][0] != 20.0:
+            return False                   # 3 sites: one (lambda, tau_c) pair
         if (c["method"], c["nref"]) != ("short-exp", 1):
             # the other expansion orders / refinements: one bath per system
             return (c["lam_tau"][0] == 20.0 and c["T"] == 300.0
@@ -766,8 +774,9 @@ def td_cases(tier):
         if tier == "quick":
             return not (c["route"] == "aggregate" and (c["epat"] != "distinct"
                                                        or c["T"] != 300.0))
-        if c["n"] == 3 and (c["lam_tau"][0] != 20.0 or c["epat"] == "near"):
-            return False
+        if c["n"] == 3 and (c["lam_tau"][0] != 20.0 or c["epat"] == "near"
+                            or c["ftype"] != "OverdampedBrownian"):
+            return False                   # 3 sites: one bath type and (lambda, tau_c) pair
         return True
     return product(dom, ok)
 
@@ -838,6 +847,9 @@ def run(run):
         "absolute propagation oracle only where the Hamiltonian has no rotating-wave frame "
         "(routes protocol/direct, lindblad)",
         "in-context absolute comparisons are made on results read after the context is left",
+        "all tensor instances of a grid point are constructed before the first basis context "
+        "is entered (bit-identical inputs; a tensor constructed outside eigenbasis_of(H) "
+        "depends on the eigenvector gauge eigh returns for exactly those numbers)",
         "analytic line-shape function with the same number of Matsubara terms as the bath "
         "built by the package (mc/refmodels/lineshape_ob.py); admissible axes: dt <= tau_c/25 "
         "and nu_M dt <= 2 pi (all Matsubara terms representable on the grid)",
